@@ -24,6 +24,14 @@ CHECKS = [
              "domain tuples, real and complex: z3 refutes any difference from explicit volume-weighted index sums for ALL "
              "field values; domain-mismatch rejection on every path. Bounded by domain sizes (<= 8 pixels).",
      "design_ref": "DESIGN.md 4/C06"},
+    {"property_id": "C03", "engine": "A", "category": "other", "technique": TECH_A + "; oracle = independent dual-number evaluation with a hand-written derivative table",
+     "note": NOTE_A + " Transcendental functions are uninterpreted with the minimal axiom instances printed in the evidence.",
+     "text": "Bounded symbolic verification: for every enumerated operator expression tree (all 24 point-wise functions on "
+             "their valid ranges, products, sums, quotients, powers, vdot, sum, scaling, diagonal operators, key "
+             "extraction; depth <= 3, 2 pixels, 1-2 keys, real and holomorphic-complex) z3 refutes for ALL inputs and "
+             "directions: value(Linearization) != plain value, Jacobian(dx) != true directional derivative, "
+             "<y,J dx> != <J^H y,dx>. Bounded by tree set and size.",
+     "design_ref": "DESIGN.md 4/C03"},
 ]
 
 ALL = [f"C{i:02d}" for i in range(1, 37)]
